@@ -105,13 +105,20 @@ func symbolicParam(pr *types.Var, i int) bval {
 	return unknownVal("parameter " + pr.Name() + " of type " + typeName(T))
 }
 
-func (bi *binterp) call(f *Func, args []bval) bval {
-	if bi.depth > 6 {
+func (bi *binterp) call(f *Func, args []bval) bval { return bi.callRecv(f, bval{}, args) }
+
+// callRecv interprets f with its receiver (if any) bound to recv: a method of a byte-slice builder type
+// (kb.str(s), kb.sep() ...) is a function of the bytes assembled so far.
+func (bi *binterp) callRecv(f *Func, recv bval, args []bval) bval {
+	if bi.depth > 8 {
 		return bi.failf("helper nesting too deep at %s", f.Name)
 	}
 	bi.depth++
 	defer func() { bi.depth-- }()
 	fr := &bframe{f: f, env: map[types.Object]bval{}, results: f.Res}
+	if f.Recv != nil {
+		fr.env[f.Recv] = recv
+	}
 	for i, pr := range f.Params {
 		if i < len(args) {
 			fr.env[pr] = args[i]
@@ -583,7 +590,16 @@ func (bi *binterp) callExpr(fr *bframe, x *ast.CallExpr) bval {
 			}
 			out := append(Shape(nil), sh...)
 			if x.Ellipsis.IsValid() && len(x.Args) == 2 {
-				t, ok := segsOf(bi.expr(fr, x.Args[1]))
+				av := bi.expr(fr, x.Args[1])
+				if av.k == bStr {
+					// append(b, s...): the bytes of the string
+					kind := "Str"
+					if av.bech32 {
+						kind = "Bech32"
+					}
+					av = bval{k: bSeq, seq: Shape{{Kind: kind, Role: av.role, Par: av.par}}}
+				}
+				t, ok := segsOf(av)
 				if !ok {
 					return unknownVal("appended value " + types.ExprString(x.Args[1]))
 				}
@@ -626,7 +642,7 @@ func (bi *binterp) callExpr(fr *bframe, x *ast.CallExpr) bval {
 				}
 			}
 		}
-		if g := bi.p.FuncByObj[fo]; g != nil && g.Body != nil && g.isHandWritten() && g.pkgName() == "types" && g.Recv == nil {
+		if g := bi.p.FuncByObj[fo]; g != nil && g.Body != nil && g.isHandWritten() && g.pkgName() == "types" && (g.Recv == nil || recv.k != bUnknown) {
 			var args []bval
 			sig := fo.Type().(*types.Signature)
 			np := sig.Params().Len()
@@ -642,6 +658,9 @@ func (bi *binterp) callExpr(fr *bframe, x *ast.CallExpr) bval {
 					rest.list = append(rest.list, bi.expr(fr, a))
 				}
 				args = append(args, rest)
+			}
+			if g.Recv != nil {
+				return bi.callRecv(g, recv, args)
 			}
 			return bi.call(g, args)
 		}
